@@ -139,6 +139,7 @@ def declarations():
     d.append(('shared-dict-create', None))
     d.append(('create-keywords', None))
     d.append(('create-after-rejected', None))
+    d.append(('numpy-names', None))
     return d
 
 
@@ -169,6 +170,20 @@ def build(rxs, decl, POOL=POOL, STATES=STATES):
             m.create_reaction(*t)
         m.py_initialize()
         return m
+    if how == 'numpy-names':
+        # species names that are numpy strings (elements of a numpy array of names), counts given as numpy scalars
+        params = list(PARAMS.items())
+        names = np.array(list(POOL))
+        conv = {str(n_): n_ for n_ in names}
+        ic = {conv[s]: np.float64(STATES[0][s]) for s in POOL}
+        tuples = []
+        for r in rxs:
+            t = list(reaction_tuple(r))
+            t[0] = [conv[x] for x in t[0]]; t[1] = [conv[x] for x in t[1]]
+            if len(t) > 4:
+                t[5] = [conv[x] for x in t[5]]; t[6] = [conv[x] for x in t[6]]
+            tuples.append(tuple(t))
+        return Model(species=list(names), reactions=tuples, parameters=params, initial_condition_dict=ic)
     if how == 'create-after-rejected':
         # create_reaction calls that are rejected (unknown species in a Hill rate; a delay parameter that is a species) are
         # interleaved with the valid ones: what they leave behind must not reach the matrices
@@ -239,7 +254,7 @@ def check_model(c, item):
     try:
         m = build(rxs, decl, POOL_, STATES_)
     except Exception as e:
-        if decl[0] in ('explicit', 'incremental', 'shared-dict-constructor', 'shared-dict-create', 'create-keywords', 'create-after-rejected'):
+        if decl[0] in ('explicit', 'incremental', 'shared-dict-constructor', 'shared-dict-create', 'create-keywords', 'create-after-rejected', 'numpy-names'):
             c.violation(key + 'build-exception', 'a valid reaction list with every species declared was rejected: %r' % e, case)
         else:
             c.count('rejected_undeclared')   # a rate refers to a species that this declaration style has not declared yet
@@ -344,7 +359,7 @@ def run(ctx):
     bigs = big_reaction_lists(ctx.tier)
     for rxs in bigs:
         for d in ([('explicit', list(BIGPOOL)), ('explicit', list(reversed(BIGPOOL))), ('explicit', BIGPOOL[5:] + BIGPOOL[:5]), ('ic-only', None),
-                   ('incremental', None), ('shared-dict-constructor', None), ('shared-dict-create', None), ('create-keywords', None), ('create-after-rejected', None)]):
+                   ('incremental', None), ('shared-dict-constructor', None), ('shared-dict-create', None), ('create-keywords', None), ('create-after-rejected', None), ('numpy-names', None)]):
             items.append((rxs, d, 'big'))
     pmap(check_model, items, ctx, nshards=256)
     miss = []
@@ -368,7 +383,7 @@ def run(ctx):
     ctx.rule = ('E2: single reactions with every reactant x product sequence of length 0..4 over {A,B,C} (quick: 0..3, thinned beyond total '
                 'length 3), every propensity type x delay type x delayed reactant/product lists; ordered pairs (thorough: triples) from a '
                 '12-reaction menu; each under all declaration styles (6 explicit permutations, implicit by the reactions, via the initial '
-                'condition dictionary in two orders, incrementally: first reaction, initialise, then each further reaction followed by an initialisation; and with one parameter dictionary object shared by all mass-action reactions of equal k, through the constructor and through create_reaction; and through the keyword form of create_reaction with empty optional arguments left out; and with rejected create_reaction calls interleaved). In addition rotations / reversals of a 17-reaction list over 12 species (5..17 reactions, orders 0..4, counts up to 200) under seven declaration styles. Oracle: update arrays equal products minus reactants counted with multiplicity '
+                'condition dictionary in two orders, incrementally: first reaction, initialise, then each further reaction followed by an initialisation; and with one parameter dictionary object shared by all mass-action reactions of equal k, through the constructor and through create_reaction; and through the keyword form of create_reaction with empty optional arguments left out; and with rejected create_reaction calls interleaved; and with species names given as numpy strings). In addition rotations / reversals of a 17-reaction list over 12 species (5..17 reactions, orders 0..4, counts up to 200) under seven declaration styles. Oracle: update arrays equal products minus reactants counted with multiplicity '
                 '(exact), derivative equals (S+Sd).rate with closed-form rates at 6 states x 2 times (1e-12). Missing value: for every '
                 'parameter position a reaction can mention, the model without that value must fail to initialise, build an interface or '
                 'simulate. states = models; non-trivial = derivative non-zero somewhere; distinct by (reaction list, declaration).')
